@@ -1,11 +1,11 @@
-SPECIFICATION Spec
+SPECIFICATION SpecFast
 CONSTANTS
   M <- MCM
   SfSids <- MCSfSids
   ReqSeq <- MCReqSeq
   BFamily <- BFamAll
   Export = FALSE
-  CheckE4 = FALSE
+  CheckE4 = TRUE
   Dev_S20_RuleOffRaises = FALSE
   Dev_S20b_UnofferedSessionAsserts = FALSE
 INVARIANT TypeOK
